@@ -5,6 +5,8 @@ package c08
 import (
 	"bytes"
 	"context"
+	"crypto/sha512"
+	"encoding/hex"
 	"encoding/json"
 	"fmt"
 	"io"
@@ -38,6 +40,7 @@ type layoutAPI interface {
 	ManifestPut(ctx context.Context, r ref.Ref, m manifest.Manifest, child bool) error
 	ManifestDelete(ctx context.Context, r ref.Ref, opt int, m manifest.Manifest) error
 	TagDelete(ctx context.Context, r ref.Ref) error
+	BlobDelete(ctx context.Context, r ref.Ref, d descriptor.Descriptor) error
 	Close(ctx context.Context, r ref.Ref) error
 }
 
@@ -64,6 +67,9 @@ func (a rcAPI) ManifestDelete(ctx context.Context, r ref.Ref, opt int, m manifes
 }
 func (a rcAPI) TagDelete(ctx context.Context, r ref.Ref) error { return a.rc.TagDelete(ctx, r) }
 func (a rcAPI) Close(ctx context.Context, r ref.Ref) error     { return a.rc.Close(ctx, r) }
+func (a rcAPI) BlobDelete(ctx context.Context, r ref.Ref, d descriptor.Descriptor) error {
+	return a.rc.BlobDelete(ctx, r, d)
+}
 
 type odAPI struct{ o *ocidir.OCIDir }
 
@@ -88,27 +94,39 @@ func (a odAPI) ManifestDelete(ctx context.Context, r ref.Ref, opt int, m manifes
 }
 func (a odAPI) TagDelete(ctx context.Context, r ref.Ref) error { return a.o.TagDelete(ctx, r) }
 func (a odAPI) Close(ctx context.Context, r ref.Ref) error     { return a.o.Close(ctx, r) }
+func (a odAPI) BlobDelete(ctx context.Context, r ref.Ref, d descriptor.Descriptor) error {
+	return a.o.BlobDelete(ctx, r, d)
+}
 
 type envA struct {
-	cs       Case
-	c        *CaseA
-	ev       *evid.Collector
-	tmp      string
-	tgt      string
-	srcDir   string
-	m        *rm.Model
-	rc       *regclient.RegClient
-	api      layoutAPI
-	gc       bool
-	due      bool // the harness knows the layout was modified through this client since the last collection
-	blobs    []string
-	classes  map[string]bool
-	cmu      sync.Mutex
-	tainted  bool // a copy with referrers / digest-tags failed: goroutines it left behind may still be writing (known finding sigStray)
-	nt       bool
-	everR    map[string]bool // digests that index.json reached at some earlier point of the history
-	trace    []string
-	watchdog bool
+	cs             Case
+	c              *CaseA
+	ev             *evid.Collector
+	tmp            string
+	tgt            string
+	srcDir         string
+	m              *rm.Model
+	signedDigest   string
+	closeRefForm   int
+	closeRefDigest string
+	tgtS           string // how every reference spells the target layout path (absolute, relative, ./relative)
+	srcS           string
+	rc             *regclient.RegClient // the client instance running the current operation
+	api            layoutAPI
+	rcs            [2]*regclient.RegClient
+	apis           [2]layoutAPI
+	dues           [2]bool
+	cur            int
+	gc             bool
+	due            bool // the harness knows the layout was modified through the current client since its last collection
+	blobs          []string
+	classes        map[string]bool
+	cmu            sync.Mutex
+	tainted        bool // a copy with referrers / digest-tags failed: goroutines it left behind may still be writing (known finding sigStray)
+	nt             bool
+	everR          map[string]bool // digests that index.json reached at some earlier point of the history
+	trace          []string
+	watchdog       bool
 }
 
 func (e *envA) class(s string) {
@@ -118,15 +136,30 @@ func (e *envA) class(s string) {
 }
 
 func tagName(i int) string {
-	if i == 3 {
+	switch i {
+	case 3:
 		return "v1"
+	case 4:
+		return "latest" // spelled by leaving the tag out of the reference
 	}
 	return fmt.Sprintf("t%d", i)
+}
+
+// use switches to one of the two client instances (they are used one after the other, never at the same time).
+func (e *envA) use(k int) {
+	k = ((k % 2) + 2) % 2
+	e.dues[e.cur] = e.due
+	e.cur = k
+	e.due, e.rc, e.api = e.dues[k], e.rcs[k], e.apis[k]
 }
 
 const emptyIndex = `{"schemaVersion":2,"mediaType":"` + rm.MTOCIIndex + `","manifests":[]}`
 
 func writePre(g *imggen.Graph, dir, pre string, keepList []string, all bool) error {
+	return writePreStyled(g, dir, pre, keepList, imggen.LayoutStyle{UntaggedAll: all})
+}
+
+func writePreStyled(g *imggen.Graph, dir, pre string, keepList []string, st imggen.LayoutStyle) error {
 	switch pre {
 	case "absent":
 		return nil
@@ -139,15 +172,79 @@ func writePre(g *imggen.Graph, dir, pre string, keepList []string, all bool) err
 		}
 		return os.WriteFile(filepath.Join(dir, "index.json"), []byte(emptyIndex), 0o666)
 	case "graph":
-		return g.PutLayout(dir, imggen.LayoutStyle{UntaggedAll: all}, nil)
+		return g.PutLayout(dir, st, nil)
 	case "graph-partial":
 		keep := map[string]bool{}
 		for _, d := range keepList {
 			keep[d] = true
 		}
-		return g.PutLayout(dir, imggen.LayoutStyle{UntaggedAll: all}, func(d string) bool { return keep[d] })
+		return g.PutLayout(dir, st, func(d string) bool { return keep[d] })
 	}
 	return fmt.Errorf("unknown pre-state %q", pre)
+}
+
+func fullName(on bool) string {
+	if on {
+		return "docker.io/library/app"
+	}
+	return ""
+}
+
+// spell returns the path string the references use: absolute, relative to the working directory, or ./relative.
+// Every reference of a case uses the same spelling (the client keys its dirty flag and its GC lock by the string).
+func spell(dir string, form int) string {
+	if form == 0 {
+		return dir
+	}
+	cwd, err := os.Getwd()
+	if err != nil {
+		return dir
+	}
+	rel, err := filepath.Rel(cwd, dir)
+	if err != nil || strings.HasPrefix(rel, "..") || filepath.IsAbs(rel) {
+		return dir
+	}
+	if form == 2 {
+		rel = "./" + rel
+	}
+	if r, err := ref.New("ocidir://" + rel + ":t0"); err != nil || r.Path != rel {
+		return dir
+	}
+	return rel
+}
+
+// restylePre rewrites the raw index.json of the pre-state the way other tools leave it: one entry listed twice, or no
+// entry carrying a tag.
+func restylePre(dir string, dup, untagged bool) error {
+	if !dup && !untagged {
+		return nil
+	}
+	p := filepath.Join(dir, "index.json")
+	b, err := os.ReadFile(p)
+	if err != nil {
+		return nil
+	}
+	var idx map[string]any
+	if err := json.Unmarshal(b, &idx); err != nil {
+		return err
+	}
+	ms, _ := idx["manifests"].([]any)
+	if untagged {
+		for _, m := range ms {
+			if mm, ok := m.(map[string]any); ok {
+				delete(mm, "annotations")
+			}
+		}
+	}
+	if dup && len(ms) > 0 {
+		ms = append(ms, ms[len(ms)/2])
+	}
+	idx["manifests"] = ms
+	nb, err := json.Marshal(idx)
+	if err != nil {
+		return err
+	}
+	return os.WriteFile(p, nb, 0o666)
 }
 
 func setupA(cs Case, ev *evid.Collector) (*envA, error) {
@@ -171,9 +268,13 @@ func setupA(cs Case, ev *evid.Collector) (*envA, error) {
 	if err := g.PutLayout(e.srcDir, imggen.LayoutStyle{UntaggedAll: true}, nil); err != nil {
 		return nil, err
 	}
-	if err := writePre(g, e.tgt, c.Pre, c.Keep, c.PreAll); err != nil {
+	if err := writePreStyled(g, e.tgt, c.Pre, c.Keep, imggen.LayoutStyle{UntaggedAll: c.PreAll, FullName: fullName(c.PreFullName), Containerd: c.PreContainerd}); err != nil {
 		return nil, err
 	}
+	if err := restylePre(e.tgt, c.PreDup, c.PreUntagged); err != nil {
+		return nil, err
+	}
+	e.tgtS, e.srcS = spell(e.tgt, c.PathForm), spell(e.srcDir, c.PathForm)
 	e.newClient()
 	for d := range reach(e.tgt).info {
 		e.everR[d] = true
@@ -182,33 +283,49 @@ func setupA(cs Case, ev *evid.Collector) (*envA, error) {
 }
 
 func (e *envA) newClient() {
-	switch e.c.System {
-	case "rc":
-		e.rc = rcutil.New(e.m, rcutil.Conf{})
-		e.api = rcAPI{e.rc}
-		e.gc = true
-	case "scheme-gc":
-		e.api = odAPI{ocidir.New()}
-		e.gc = true
-	default:
-		e.api = odAPI{ocidir.New(ocidir.WithGC(false))}
-		e.gc = false
+	for k := 0; k < 2; k++ {
+		switch e.c.System {
+		case "rc":
+			e.rcs[k] = rcutil.New(e.m, rcutil.Conf{})
+			e.apis[k] = rcAPI{e.rcs[k]}
+			e.gc = true
+		case "scheme-gc":
+			e.apis[k] = odAPI{ocidir.New()}
+			e.gc = true
+		default:
+			e.apis[k] = odAPI{ocidir.New(ocidir.WithGC(false))}
+			e.gc = false
+		}
+		e.dues[k] = false
 	}
 	e.due = false
+	e.rc, e.api = e.rcs[e.cur], e.apis[e.cur]
 }
 
 func (e *envA) close() { os.RemoveAll(e.tmp) }
 
-func (e *envA) tgtRef(tag int, dig string) ref.Ref {
-	var r ref.Ref
-	var err error
-	if tag < 0 {
-		r, err = ref.New("ocidir://" + e.tgt + "@" + dig)
-	} else {
-		r, err = ref.New("ocidir://" + e.tgt + ":" + tagName(tag))
+func (e *envA) tgtRef(tag int, dig string) ref.Ref { return e.tgtRefD(tag, dig, false) }
+
+// tgtRefD builds a reference to the target layout: by digest (tag < 0), by tag, by tag@digest, or without a tag
+// (tag 4: the default tag).
+func (e *envA) tgtRefD(tag int, dig string, withDigest bool) ref.Ref {
+	s := "ocidir://" + e.tgtS
+	switch {
+	case tag < 0:
+		s += "@" + dig
+	case tag == 4:
+		if withDigest && dig != "" {
+			s += ":latest@" + dig
+		}
+	default:
+		s += ":" + tagName(tag)
+		if withDigest && dig != "" {
+			s += "@" + dig
+		}
 	}
+	r, err := ref.New(s)
 	if err != nil {
-		panic(fmt.Sprintf("harness: cannot build target ref: %v", err))
+		panic(fmt.Sprintf("harness: cannot build target ref %q: %v", s, err))
 	}
 	return r
 }
@@ -315,10 +432,10 @@ func (e *envA) doCopy(ctx context.Context, op Op) *evid.Violation {
 	var srcS string
 	switch op.From {
 	case "layout":
-		srcS = "ocidir://" + e.srcDir
+		srcS = "ocidir://" + e.srcS
 	case "self":
 		// a copy inside the target layout (re-tag): by another tag of the layout, or by the node's digest
-		srcS = "ocidir://" + e.tgt
+		srcS = "ocidir://" + e.tgtS
 		if op.SrcByTag {
 			srcTag = tagName((op.Tag + 5) % 4)
 		} else {
@@ -336,7 +453,7 @@ func (e *envA) doCopy(ctx context.Context, op Op) *evid.Violation {
 	if err != nil {
 		panic(fmt.Sprintf("harness: source ref %q: %v", srcS, err))
 	}
-	tgt := e.tgtRef(op.Tag, n.Digest)
+	tgt := e.tgtRefD(op.Tag, n.Digest, op.WithDigest)
 	addFault(e.m, op.Fault, "")
 	var mu sync.Mutex
 	var viol *evid.Violation
@@ -433,6 +550,23 @@ func (e *envA) doCopy(ctx context.Context, op Op) *evid.Violation {
 	if newFile || (cerr == nil && ai != bi) {
 		e.due = true
 	}
+	var srcViol *evid.Violation
+	if op.From == "layout" {
+		// regctl image copy closes the source reference too: a layout that was only read loses nothing
+		sb := takeSnap(e.srcDir)
+		serr := e.rc.Close(context.Background(), src)
+		sa := takeSnap(e.srcDir)
+		e.class("A:close-of-source-layout")
+		for _, k := range sortedKeys(sb.files) {
+			if h, ok := sa.recheck(e.srcDir, k); !ok || h != sb.files[k] {
+				srcViol = evid.V("close-of-read-only-source-removed-files", "Close of the SOURCE layout reference of an ImageCopy (the layout was only read through this client) removed/changed blobs/%s (Close returned %v)", k, serr)
+				break
+			}
+		}
+		if srcViol == nil && sb.index != sa.index {
+			srcViol = evid.V("close-of-read-only-source-removed-files", "Close of the source layout reference of an ImageCopy changed its index.json")
+		}
+	}
 	if cerr != nil {
 		e.class("A:copy-error")
 		if newFile {
@@ -457,6 +591,9 @@ func (e *envA) doCopy(ctx context.Context, op Op) *evid.Violation {
 		if viol != nil {
 			viol = evid.V(sigStray, "ImageCopy of %s with referrers=%v digest-tags=%v failed (%s) and events of it observed a collection: %s", n.Digest, op.Referrers, op.DigestTags, short(cerr), viol.Msg)
 		}
+	}
+	if viol == nil {
+		viol = srcViol
 	}
 	return viol
 }
@@ -483,6 +620,27 @@ func (e *envA) report(v *evid.Violation) *evid.Violation {
 	return v
 }
 
+// closeRef is the reference a Close is called with: every form names the same layout path.
+func (e *envA) closeRef() ref.Ref {
+	form, dig := e.closeRefForm, e.closeRefDigest
+	e.closeRefForm = 0
+	if dig == "" {
+		form = 0
+	}
+	if form != 0 {
+		e.class(fmt.Sprintf("A:close-ref-form:%d", form))
+	}
+	switch form {
+	case 1:
+		return e.tgtRef(-1, dig)
+	case 2:
+		return e.tgtRefD(0, dig, true)
+	case 3:
+		return e.tgtRef(4, "")
+	}
+	return e.tgtRef(0, "")
+}
+
 // closeAndJudge is the oracle: it is evaluated around every Close.
 func (e *envA) closeAndJudge(ctxKind int, step string) *evid.Violation {
 	ctx, cancelCtx := mkCtx(ctxKind)
@@ -492,7 +650,7 @@ func (e *envA) closeAndJudge(ctxKind int, step string) *evid.Violation {
 	before := takeSnap(e.tgt)
 	rb := reach(e.tgt)
 	rb.resolveEdges()
-	cerr := e.api.Close(ctx, e.tgtRef(0, ""))
+	cerr := e.api.Close(ctx, e.closeRef())
 	after := takeSnap(e.tgt)
 	wasDue := e.due
 
@@ -511,6 +669,9 @@ func (e *envA) closeAndJudge(ctxKind int, step string) *evid.Violation {
 	for _, d := range rb.sorted() {
 		if strings.HasPrefix(d, "sha512:") {
 			e.class("A:close-with-reachable-sha512-object")
+		}
+		if d == e.signedDigest {
+			e.class("A:close-with-reachable-signed-schema1")
 		}
 		k := digestKey(d)
 		h, ok := after.recheck(e.tgt, k)
@@ -614,7 +775,12 @@ func (e *envA) closeAndJudge(ctxKind int, step string) *evid.Violation {
 	for _, k := range sortedKeys(after.files) {
 		d := keyDigest(k)
 		if d == "" {
-			leftTmp = append(leftTmp, k)
+			if strings.HasSuffix(k, ".tmp") {
+				leftTmp = append(leftTmp, k)
+			} else {
+				// neither a digest nor a temporary file (e.g. notes.txt left by somebody): the statement claims nothing about it
+				e.class("A:unclaimed-non-digest-file-present-after-collection")
+			}
 			continue
 		}
 		if _, in := rb.info[d]; !in {
@@ -654,9 +820,20 @@ func (e *envA) plantTmp(i int, op Op) {
 	case 0: // what BlobPut leaves behind when it is interrupted
 		os.WriteFile(filepath.Join(dir, fmt.Sprintf("%d%d.tmp", 1000000+i, op.Node)), []byte("partial blob"), 0o666)
 	case 1: // what ManifestPut leaves behind
-		os.WriteFile(filepath.Join(dir, fmt.Sprintf("%s.%d.tmp", strings.TrimPrefix(n.Digest, "sha256:"), 3000+i)), n.Body, 0o666)
+		os.WriteFile(filepath.Join(dir, fmt.Sprintf("%s.%d.tmp", n.Digest[strings.IndexByte(n.Digest, ':')+1:], 3000+i)), n.Body, 0o666)
 	case 2: // empty temp file
 		os.WriteFile(filepath.Join(dir, fmt.Sprintf("%d.tmp", 77000+i)), nil, 0o666)
+	case 4: // an unreferenced object under another algorithm directory
+		data := []byte(fmt.Sprintf("unreferenced-sha384-%d", i))
+		sum := sha512.Sum384(data)
+		d2 := filepath.Join(e.tgt, "blobs", "sha384")
+		if os.MkdirAll(d2, 0o777) == nil {
+			os.WriteFile(filepath.Join(d2, hex.EncodeToString(sum[:])), data, 0o666)
+		}
+	case 5: // a file directly in blobs/ (the collector only looks into the algorithm directories; nothing is claimed about it)
+		os.WriteFile(filepath.Join(e.tgt, "blobs", "README.txt"), []byte("left by another tool"), 0o666)
+	case 6: // a file in the algorithm directory that is neither a digest nor a temporary file (nothing is claimed about it)
+		os.WriteFile(filepath.Join(dir, "notes.txt"), []byte("left by another tool"), 0o666)
 	default: // a valid blob nobody references, stored by another tool
 		data := []byte(fmt.Sprintf("unreferenced-%d-%d", i, op.Node))
 		os.WriteFile(filepath.Join(dir, strings.TrimPrefix(rm.Digest("sha256", data), "sha256:")), data, 0o666)
@@ -678,6 +855,23 @@ func checkA(cs Case, ev *evid.Collector) *evid.Violation {
 	nN := len(g.Nodes)
 	e.class("A:system:" + c.System)
 	e.class("A:pre:" + c.Pre)
+	e.class(fmt.Sprintf("A:path-form:%d(spelled-relative=%v)", c.PathForm, e.tgtS != e.tgt))
+	if c.PreFullName {
+		e.class("A:pre-foreign:full-name")
+	}
+	if c.PreDup {
+		e.class("A:pre-foreign:duplicate-entry")
+	}
+	if c.PreUntagged {
+		e.class("A:pre-foreign:untagged-only")
+	}
+	signed := ""
+	for _, nd := range g.Nodes {
+		if nd.MediaType == rm.MTDocker1Sig {
+			signed = nd.Digest
+		}
+	}
+	e.signedDigest = signed
 	for _, l := range g.Labels {
 		e.class("graph:" + l)
 	}
@@ -691,8 +885,19 @@ func checkA(cs Case, ev *evid.Collector) *evid.Violation {
 	for i, op := range c.Ops {
 		op.Node = ((op.Node % nN) + nN) % nN
 		n := g.Nodes[op.Node]
-		step := fmt.Sprintf("step %d (%s, context %s)", i, op.Kind, ctxName(op.Ctx))
+		step := fmt.Sprintf("step %d (%s, context %s, client %d)", i, op.Kind, ctxName(op.Ctx), op.Client)
 		e.class("A:op:" + op.Kind)
+		e.use(op.Client)
+		if op.Client%2 != 0 {
+			e.class("A:op-by-second-client")
+			e.trace = append(e.trace, "client=1")
+		}
+		if op.WithDigest {
+			e.class("A:target-ref-tag+digest")
+		}
+		if op.Tag == 4 && op.Kind != "close" && op.Kind != "tmp" && op.Kind != "reopen" {
+			e.class("A:target-ref-default-tag")
+		}
 		ctx, cancelOp := context.WithCancel(context.Background())
 		if op.Kind != "close" && op.Ctx%4 != 0 {
 			cancelOp()
@@ -705,7 +910,7 @@ func checkA(cs Case, ev *evid.Collector) *evid.Violation {
 			if c.System != "rc" {
 				// the bare scheme has no ImageCopy: the closure is pushed by hand instead
 				e.trace = append(e.trace, fmt.Sprintf("%d:push(copy) n%d->%s", i, op.Node, tagName(op.Tag)))
-				if e.pushNode(ctx, op.Node, e.tgtRef(op.Tag, n.Digest), op.Child, false, false, 0) {
+				if e.pushNode(ctx, op.Node, e.tgtRefD(op.Tag, n.Digest, op.WithDigest), op.Child, false, false, 0) {
 					e.due = true
 				}
 				break
@@ -721,7 +926,7 @@ func checkA(cs Case, ev *evid.Collector) *evid.Violation {
 			}
 		case "push":
 			e.trace = append(e.trace, fmt.Sprintf("%d:push n%d(%s)->%s child=%v skipBlobs=%v skipChildren=%v", i, op.Node, n.Kind, tagName(op.Tag), op.Child, op.SkipBlobs, op.SkipChildren))
-			if e.pushNode(ctx, op.Node, e.tgtRef(op.Tag, n.Digest), op.Child, op.SkipBlobs, op.SkipChildren, 0) {
+			if e.pushNode(ctx, op.Node, e.tgtRefD(op.Tag, n.Digest, op.WithDigest), op.Child, op.SkipBlobs, op.SkipChildren, 0) {
 				e.due = true
 			}
 			if n.Subject != "" {
@@ -730,7 +935,7 @@ func checkA(cs Case, ev *evid.Collector) *evid.Violation {
 		case "manifest":
 			e.trace = append(e.trace, fmt.Sprintf("%d:manifest n%d(%s)->%s child=%v", i, op.Node, n.Kind, tagName(op.Tag), op.Child))
 			if m, err := nodeManifest(n); err == nil {
-				if err := e.api.ManifestPut(ctx, e.tgtRef(op.Tag, n.Digest), m, op.Child); err == nil {
+				if err := e.api.ManifestPut(ctx, e.tgtRefD(op.Tag, n.Digest, op.WithDigest), m, op.Child); err == nil {
 					e.due = true
 				}
 			}
@@ -744,6 +949,50 @@ func checkA(cs Case, ev *evid.Collector) *evid.Violation {
 			if err := e.api.BlobPut(ctx, e.tgtRef(0, ""), descriptor.Descriptor{Digest: digest.Digest(bd), Size: int64(len(b.Data))}, bytes.NewReader(b.Data)); err == nil {
 				e.due = true
 			}
+		case "import":
+			tgtI := e.tgtRefD(op.Tag, n.Digest, op.WithDigest)
+			if c.System != "rc" {
+				if e.pushNode(ctx, op.Node, tgtI, false, false, false, 0) {
+					e.due = true
+				}
+				break
+			}
+			// what `regctl image export | regctl image import ocidir://...` does: no GC lock is involved
+			srcI, err := ref.New(srcHost + "/" + srcRepo + "@" + n.Digest)
+			if err != nil {
+				break
+			}
+			bf, bi := listDigestFiles(e.tgt), e.readIndexBytes()
+			var buf bytes.Buffer
+			ierr := e.rc.ImageExport(ctx, srcI, &buf)
+			if ierr == nil {
+				ierr = e.rc.ImageImport(ctx, tgtI, bytes.NewReader(buf.Bytes()))
+			}
+			af, ai := listDigestFiles(e.tgt), e.readIndexBytes()
+			newFile := false
+			for d := range af {
+				if !bf[d] {
+					newFile = true
+				}
+			}
+			if newFile || (ierr == nil && ai != bi) {
+				e.due = true
+			}
+			e.trace = append(e.trace, fmt.Sprintf("%d:import n%d(%s)->%s=%v", i, op.Node, n.Kind, tagName(op.Tag), ierr == nil))
+			if ierr == nil {
+				e.class("A:import-ok")
+			}
+		case "blobdel":
+			if len(e.blobs) == 0 {
+				break
+			}
+			bd := e.blobs[((op.Blob%len(e.blobs))+len(e.blobs))%len(e.blobs)]
+			err := e.api.BlobDelete(ctx, e.tgtRef(0, ""), descriptor.Descriptor{Digest: digest.Digest(bd)})
+			e.trace = append(e.trace, fmt.Sprintf("%d:blobdel %.19s=%v", i, bd, err == nil))
+			if err == nil {
+				// (the blob is gone by the caller's own hand, not by a Close; the dirty flag is not set by it)
+				e.class("A:blobdel-ok")
+			}
 		case "tagdel":
 			name := tagName(op.Tag)
 			if op.TagKind == 1 {
@@ -754,7 +1003,11 @@ func checkA(cs Case, ev *evid.Collector) *evid.Violation {
 				}
 				name = alg + "-" + hx
 			}
-			r, err := ref.New("ocidir://" + e.tgt + ":" + name)
+			rs := "ocidir://" + e.tgtS + ":" + name
+			if op.TagKind != 1 && op.Tag == 4 {
+				rs = "ocidir://" + e.tgtS // no tag in the reference at all
+			}
+			r, err := ref.New(rs)
 			if err != nil {
 				break
 			}
@@ -786,6 +1039,7 @@ func checkA(cs Case, ev *evid.Collector) *evid.Violation {
 			e.newClient()
 		case "close":
 			e.trace = append(e.trace, fmt.Sprintf("%d:close(due=%v,ctx=%s)", i, e.due, ctxName(op.Ctx)))
+			e.closeRefForm, e.closeRefDigest = op.CloseRef, n.Digest
 			if v := e.closeAndJudge(op.Ctx, step); v != nil {
 				cancelOp()
 				return finish(v)
@@ -800,6 +1054,7 @@ func checkA(cs Case, ev *evid.Collector) *evid.Violation {
 			}
 		}
 	}
+	e.use(0)
 	// every history ends with a push of a blob nobody references followed by a Close: a collection certainly is due then
 	if err := e.api.BlobPut(ctx, e.tgtRef(0, ""), descriptor.Descriptor{Digest: digest.Digest(rm.Digest("sha256", sentinel)), Size: int64(len(sentinel))}, bytes.NewReader(sentinel)); err == nil {
 		e.due = true
